@@ -46,12 +46,12 @@ CHECK = {
         # real-TBB build: crosses the parallel thresholds (radix tree > 1e4 internal nodes, BuildInternalBoxes > 1e3,
         # Collisions / BVHCollisions > 512 queries, CollectIntersectionPairs' PairsRecorder path)
         {"name": "par-collider", "variant": "tbb", "harness": "c14_spatial.cpp",
-         "cases": {"quick": 16, "thorough": 100},
-         "params": {"mode": "collider", "par": 1, "minLeaves": 10500, "maxLeaves": {"quick": 20000, "thorough": 60000},
+         "cases": {"quick": 16, "thorough": 48},
+         "params": {"mode": "collider", "par": 1, "minLeaves": 10500, "maxLeaves": {"quick": 20000, "thorough": 40000},
                     "pairBudget": 1000000},
          "max_workers": 4, "case_timeout": 600},
         {"name": "par-bvh2d", "variant": "tbb", "harness": "c14_spatial.cpp",
-         "cases": {"quick": 16, "thorough": 100},
+         "cases": {"quick": 16, "thorough": 48},
          "params": {"mode": "bvh2d", "par": 1, "maxBoxes": {"quick": 14000, "thorough": 30000}},
          "max_workers": 4, "case_timeout": 600},
     ],
